@@ -190,8 +190,12 @@ def check_case(case, acc):
         mats.append(("group", dm.group, np.array(dm.group.design_matrix, dtype=float, copy=True)))
     problems = {}
     nframes = 0
+    variants = []
     for idx in new_frames(_TIER):
-        nd = df.iloc[idx].reset_index(drop=True)
+        variants.append((idx, df.iloc[idx].reset_index(drop=True)))
+        if len(idx) <= 2 or len(idx) >= N:
+            variants.append((idx, df.iloc[idx]))  # the rows keep their labels (not 0..n-1, repeated for repeated rows)
+    for idx, nd in variants:
         nframes += 1
         for which, M, train in mats:
             acc.calls += 1
